@@ -1,16 +1,369 @@
 package interp
 
-import "golang.org/x/tools/go/ssa"
+// Deterministic scheduler for interpreted goroutines (used by the C17 harnesses).
+//
+// Every `go` statement creates a coroutine backed by a real goroutine, but a
+// baton guarantees that exactly one of them runs at any time. The running
+// coroutine gives up the baton only at scheduling points: a lock acquisition
+// (Mutex.Lock, RWMutex.Lock/RLock), WaitGroup.Wait, and its own termination.
+// Which runnable coroutine continues is a symbolic choice handled by the path
+// explorer, so that every interleaving of lock-delimited sections is explored
+// by re-execution. Memory is sequentially consistent.
+//
+// Race detection is by ownership: heap cells and maps that exist when the first
+// coroutine is spawned (and maps later stored into such cells) are shared. While
+// more than one coroutine is alive, a store to a shared cell, or an update of a
+// shared map, by a coroutine that holds no lock in write mode - or a lookup in a
+// lock-protected shared map by a coroutine that holds no lock at all - is
+// reported as an unsynchronised access.
 
-// scheduler is the deterministic goroutine scheduler used by schedule-exploring
-// harnesses (see sched_impl.go). nil when the harness is sequential.
-type scheduler struct{}
+import (
+	"fmt"
+
+	"golang.org/x/tools/go/ssa"
+
+	"verif/engine/smt"
+)
+
+type coroutine struct {
+	id      int
+	resume  chan struct{}
+	done    bool
+	started bool
+	fn      value
+	args    []value
+	heldW   int // locks held in write mode
+	heldR   int // locks held in read mode
+	waitFor func() bool
+}
+
+type mutexState struct {
+	writer  *coroutine
+	readers int
+}
+
+type scheduler struct {
+	cos     []*coroutine
+	cur     *coroutine
+	mutexes map[*value]*mutexState
+	wgs     map[*value]*int
+	killed  bool
+	abort   any // a panic raised inside a coroutine, re-raised on the main coroutine
+
+	spawned     bool
+	sharedCells map[*value]bool
+	sharedMaps  map[*omap]bool
+	lockedMaps  map[*omap]bool // shared maps that have been updated under a lock
+	interp      *interpreter
+}
 
 var sched *scheduler
 
-func (s *scheduler) spawn(fr *frame, instr *ssa.Go, fn value, args []value) {
-	panic(engineAbort{"unsupported", "scheduler not implemented"})
+func newScheduler(i *interpreter) *scheduler {
+	s := &scheduler{mutexes: map[*value]*mutexState{}, wgs: map[*value]*int{}, sharedCells: map[*value]bool{},
+		sharedMaps: map[*omap]bool{}, lockedMaps: map[*omap]bool{}, interp: i}
+	main := &coroutine{id: 0, resume: make(chan struct{}), started: true}
+	s.cos = []*coroutine{main}
+	s.cur = main
+	return s
 }
-func (s *scheduler) reset()                           {}
-func (s *scheduler) syncOp(kind string, args []value) {}
-func (s *scheduler) yield(kind string)                {}
+
+// reset is called at the start of every path.
+func (s *scheduler) reset() {}
+
+func (s *scheduler) alive() int {
+	n := 0
+	for _, c := range s.cos {
+		if !c.done {
+			n++
+		}
+	}
+	return n
+}
+
+// snapshotShared marks everything reachable from the spawning frame's arguments
+// and from package-level variables ... approximated by: every heap cell and map
+// reachable from the new goroutine's function value and arguments.
+func (s *scheduler) markShared(v value, depth int) {
+	if depth > 40 {
+		return
+	}
+	switch v := v.(type) {
+	case *value:
+		if v == nil || s.sharedCells[v] {
+			return
+		}
+		s.sharedCells[v] = true
+		s.markShared(*v, depth+1)
+	case structure:
+		for i := range v {
+			s.sharedCells[&v[i]] = true
+			s.markShared(v[i], depth+1)
+		}
+	case array:
+		for i := range v {
+			s.sharedCells[&v[i]] = true
+			s.markShared(v[i], depth+1)
+		}
+	case []value:
+		for i := range v {
+			s.markShared(v[i], depth+1)
+		}
+	case iface:
+		s.markShared(v.v, depth+1)
+	case *omap:
+		if v == nil || s.sharedMaps[v] {
+			return
+		}
+		s.sharedMaps[v] = true
+		for _, e := range v.ents {
+			if !e.dead {
+				s.markShared(e.key, depth+1)
+				s.markShared(e.val, depth+1)
+			}
+		}
+	case *closure:
+		if v != nil {
+			for _, b := range v.Env {
+				s.markShared(b, depth+1)
+			}
+		}
+	case tuple:
+		for _, x := range v {
+			s.markShared(x, depth+1)
+		}
+	}
+}
+
+func (s *scheduler) spawn(fr *frame, instr *ssa.Go, fn value, args []value) {
+	co := &coroutine{id: len(s.cos), resume: make(chan struct{}), fn: fn, args: args}
+	// what the new goroutine can reach is shared between it and its creator
+	s.markShared(fn, 0)
+	for _, a := range args {
+		s.markShared(a, 0)
+	}
+	s.spawned = true
+	s.cos = append(s.cos, co)
+	go func() {
+		<-co.resume
+		co.started = true
+		defer func() {
+			if r := recover(); r != nil {
+				if ea, ok := r.(engineAbort); !ok || ea.kind != "killed" {
+					if s.abort == nil {
+						s.abort = r
+					}
+				}
+			}
+			co.done = true
+			s.finish(co)
+		}()
+		if s.killed {
+			panic(engineAbort{"killed", ""})
+		}
+		call(s.interp, nil, instr.Pos(), fn, args)
+	}()
+}
+
+// finish hands the baton on when a coroutine ends.
+func (s *scheduler) finish(co *coroutine) {
+	if s.killed || s.abort != nil {
+		// wake the main coroutine so that it can unwind
+		s.cos[0].resume <- struct{}{}
+		return
+	}
+	next := s.pick()
+	if next == nil {
+		// nothing can run: the main coroutine must be blocked forever
+		s.abort = engineAbort{"deadlock", "all goroutines are blocked"}
+		s.cos[0].resume <- struct{}{}
+		return
+	}
+	s.cur = next
+	next.resume <- struct{}{}
+}
+
+func (s *scheduler) runnable() []*coroutine {
+	var r []*coroutine
+	for _, c := range s.cos {
+		if c.done {
+			continue
+		}
+		if c.waitFor != nil && !c.waitFor() {
+			continue
+		}
+		r = append(r, c)
+	}
+	return r
+}
+
+// pick chooses the next coroutine to run among the runnable ones (a symbolic decision).
+func (s *scheduler) pick() *coroutine {
+	r := s.runnable()
+	switch len(r) {
+	case 0:
+		return nil
+	case 1:
+		return r[0]
+	}
+	t := P.newVar("int", 64)
+	c := P.ctx
+	P.assume(c.And(c.Cmp(smt.OpSLe, c.BV(64, 0), t), c.Cmp(smt.OpSLt, t, c.BV(64, uint64(len(r))))))
+	P.doms[t] = &domain{}
+	for x := 0; x < len(r); x++ {
+		P.doms[t].vals = append(P.doms[t].vals, uint64(x))
+	}
+	return r[int(P.concretize(t))]
+}
+
+// yield is a scheduling point of the running coroutine.
+func (s *scheduler) yieldPoint() {
+	me := s.cur
+	if s.alive() <= 1 && me.waitFor == nil {
+		return
+	}
+	next := s.pick()
+	if next == nil {
+		panic(engineAbort{"deadlock", "all goroutines are blocked"})
+	}
+	if next == me {
+		return
+	}
+	s.cur = next
+	next.resume <- struct{}{}
+	<-me.resume
+	if s.killed {
+		panic(engineAbort{"killed", ""})
+	}
+	if me.id == 0 && s.abort != nil {
+		a := s.abort
+		s.abort = nil
+		panic(a)
+	}
+}
+
+func (s *scheduler) yield(kind string) {}
+
+func (s *scheduler) mutex(p *value) *mutexState {
+	m := s.mutexes[p]
+	if m == nil {
+		m = &mutexState{}
+		s.mutexes[p] = m
+	}
+	return m
+}
+
+func (s *scheduler) syncOp(kind string, args []value) {
+	p, _ := args[0].(*value)
+	me := s.cur
+	switch kind {
+	case "Lock":
+		m := s.mutex(p)
+		me.waitFor = func() bool { return m.writer == nil && m.readers == 0 }
+		s.yieldPoint()
+		for !(m.writer == nil && m.readers == 0) {
+			s.yieldPoint()
+		}
+		me.waitFor = nil
+		m.writer = me
+		me.heldW++
+	case "Unlock":
+		m := s.mutex(p)
+		if m.writer != me {
+			panic(targetPanic{"sync: unlock of unlocked mutex"})
+		}
+		m.writer = nil
+		me.heldW--
+	case "RLock":
+		m := s.mutex(p)
+		me.waitFor = func() bool { return m.writer == nil }
+		s.yieldPoint()
+		for m.writer != nil {
+			s.yieldPoint()
+		}
+		me.waitFor = nil
+		m.readers++
+		me.heldR++
+	case "RUnlock":
+		m := s.mutex(p)
+		if m.readers <= 0 {
+			panic(targetPanic{"sync: RUnlock of unlocked RWMutex"})
+		}
+		m.readers--
+		me.heldR--
+	case "WGAdd":
+		n := s.wgs[p]
+		if n == nil {
+			n = new(int)
+			s.wgs[p] = n
+		}
+		*n += int(concInt(args[1]))
+	case "WGDone":
+		if n := s.wgs[p]; n != nil {
+			*n--
+		}
+	case "WGWait":
+		n := s.wgs[p]
+		if n == nil {
+			return
+		}
+		me.waitFor = func() bool { return *n <= 0 }
+		for *n > 0 {
+			s.yieldPoint()
+		}
+		me.waitFor = nil
+	}
+}
+
+// ---- race checks, called from the interpreter on stores and map operations
+
+func (s *scheduler) concurrent() bool { return s.spawned && s.alive() > 1 }
+
+func (s *scheduler) raceViolation(what string) {
+	P.res.Violations = append(P.res.Violations, Violation{ID: "unsynchronised-" + what, Kind: "assert",
+		Msg: fmt.Sprintf("goroutine %d, in %v\n%s", s.cur.id, P.curFn, ""), Vector: P.vector(), Inputs: P.renderInputs()})
+	panic(engineAbort{"done", "unsynchronised " + what})
+}
+
+func (s *scheduler) onStore(addr *value, v value) {
+	if !s.sharedCells[addr] {
+		return
+	}
+	// whatever is stored into shared memory becomes shared
+	s.markShared(v, 0)
+	if s.concurrent() && s.cur.heldW == 0 {
+		s.raceViolation("write-to-shared-memory")
+	}
+}
+
+func (s *scheduler) onMapWrite(m *omap) {
+	if !s.sharedMaps[m] {
+		return
+	}
+	if s.cur.heldW > 0 {
+		s.lockedMaps[m] = true
+	}
+	if s.concurrent() && s.cur.heldW == 0 {
+		s.raceViolation("update-of-shared-map")
+	}
+}
+
+func (s *scheduler) onMapRead(m *omap) {
+	if m == nil || !s.sharedMaps[m] || !s.lockedMaps[m] {
+		return
+	}
+	if s.concurrent() && s.cur.heldW == 0 && s.cur.heldR == 0 {
+		s.raceViolation("read-of-lock-protected-shared-map")
+	}
+}
+
+// kill unblocks every parked coroutine so that its goroutine can exit.
+func (s *scheduler) kill() {
+	s.killed = true
+	for _, c := range s.cos[1:] {
+		if !c.done {
+			c.resume <- struct{}{}
+			<-s.cos[0].resume
+		}
+	}
+}
